@@ -288,7 +288,7 @@ func C14depth(p *load.Program, run *report.Run) {
 			run.Violate("recursive-parsers-depth-bounded", name, p.Rel(fn.Pos()), "the function calls itself once per nesting level chosen by the file and has no depth bound: a long chain of levels makes the parser hang (work per level grows with the remaining text) or overflow the stack instead of returning an error", nil)
 		}
 	}
-	run.Floor("recursive-parser-functions", 2)
+	run.Floor("recursive-parser-functions", 1)
 }
 
 // depthRestored: from the increment inc of receiver field f, every path to a successful return passes a
